@@ -51,6 +51,7 @@ const (
 type Ev struct {
 	K  string `json:"k"`            // set | tun | ans | allow | uapi | refinit | refdata | tunerr | tunierr | retransmit
 	Kf int    `json:"kf,omitempty"` // tunerr: datagrams that go out before Bind.Send returns its error
+	F  bool   `json:"f,omitempty"`  // set: may LOWER the counter, to a range never used under this key
 	V  uint64 `json:"v,omitempty"`
 	N  int    `json:"n,omitempty"`
 	On bool   `json:"on,omitempty"`
@@ -96,6 +97,7 @@ type StressCfg struct {
 	KA        int   `json:"keepalive_flushers"`
 	DownUp    bool  `json:"down_up"`         // prelude: Down; TUN packets for configured peers while down; Up
 	SendErr   int   `json:"send_err_one_in"` // one in N transport Sends fails after a random prefix went out (0 = never)
+	Cross     bool  `json:"cross"`           // every phase puts every peer's counter a few packets below the limit (many crossings under concurrent flushers)
 }
 
 type Case struct {
@@ -194,6 +196,7 @@ func runSeq(evs []Ev, bindBatch int, long bool) ([]Ev, []Obs, bool) {
 	}
 	nextID := uint64(1)
 	pka := 0
+	maxCtr := map[uint32]uint64{} // greatest counter seen on the wire per receiver index
 	var lastRefSess *ref.Session
 	var lastRefInit time.Time
 	var aev []Ev
@@ -271,8 +274,15 @@ func runSeq(evs []Ev, bindBatch int, long bool) ([]Ev, []Obs, bool) {
 			out = w.TunIn(pkts...)
 		case "set":
 			st := w.Dev.VerifPeer(pk)
-			if !st.Current.Present || e.V < st.Current.SendNonce {
+			if !st.Current.Present {
 				continue
+			}
+			if e.V < st.Current.SendNonce {
+				// lowering is only sound into a range no counter of this key has been taken from yet
+				mx, used := maxCtr[st.Current.RemoteIndex]
+				if !e.F || (used && e.V <= mx) {
+					continue
+				}
 			}
 			w.Dev.VerifSetSendNonce(pk, e.V)
 			out = w.Take()
@@ -337,6 +347,11 @@ func runSeq(evs []Ev, bindBatch int, long bool) ([]Ev, []Obs, bool) {
 			slow = true
 		}
 		o.Tx, o.Init = parseSent(w, p, out.Sent, &lastInit)
+		for _, t := range o.Tx {
+			if t.Ctr >= maxCtr[t.Idx] {
+				maxCtr[t.Idx] = t.Ctr
+			}
+		}
 		if st := w.Dev.VerifPeer(pk); st.Current.Present {
 			o.HasKey, o.Nonce = true, st.Current.SendNonce
 		}
@@ -445,6 +460,15 @@ func directed() [][]Ev {
 			out = append(out, []Ev{{K: "tun", N: 1}, {K: "ans"}, {K: "allow"}, {K: "set", V: v}, {K: "tunerr", N: n, Kf: k}, {K: "tun", N: 3}, {K: "tun", N: 2},
 				{K: "allow"}, {K: "tunierr", N: 2}, {K: "allow"}, {K: "tun", N: 1}, {K: "ans"}, {K: "tunerr", N: 4, Kf: 0}, {K: "tun", N: 4}})
 		}
+	}
+	// several containers staged, the first of which ends EXACTLY at the last counter: the next one is wholly
+	// unnumberable inside the loop (the top check passed), must be re-staged and delivered by the next session
+	for _, nn := range [][2]int{{1, 1}, {2, 3}, {7, 1}, {64, 5}, {128, 128}, {3, 128}} {
+		n1, n2 := nn[0], nn[1]
+		out = append(out, []Ev{{K: "tun", N: 1}, {K: "ans"}, {K: "allow"}, {K: "set", V: Reject + 1}, {K: "tun", N: n1}, {K: "tun", N: n2},
+			{K: "set", V: Reject - uint64(n1), F: true}, {K: "uapi"}, {K: "allow"}, {K: "uapi"}, {K: "ans"}, {K: "tun", N: 2}})
+		out = append(out, []Ev{{K: "refinit"}, {K: "refdata"}, {K: "allow"}, {K: "set", V: Reject}, {K: "tun", N: n1}, {K: "tun", N: n2}, {K: "tun", N: 1},
+			{K: "set", V: Reject - uint64(n1), F: true}, {K: "uapi", On: true}, {K: "allow"}, {K: "uapi"}, {K: "ans"}})
 	}
 	return out
 }
@@ -760,6 +784,37 @@ func runStress(c StressCfg) Case {
 		}
 	})
 
+	// crossing worlds: a goroutine keeps every fresh key a few counters below the limit (raising only) and lifts the
+	// 5 s spacing whenever a key is exhausted, so that the limit is crossed hundreds of times per second while the
+	// flushers run; no quiescence is needed for raising a counter
+	var crossings atomic.Int64
+	var crossStop atomic.Bool
+	var crossWg sync.WaitGroup
+	if c.Cross {
+		crossWg.Add(1)
+		go func() {
+			defer crossWg.Done()
+			shifted := make([]uint32, len(peers)) // remote index of the exhausted key the spacing was last lifted for
+			for !crossStop.Load() {
+				for i, p := range peers {
+					pk := cosim.NoisePK(p.Pub)
+					st := w.Dev.VerifPeer(pk)
+					if !st.Current.Present {
+						continue
+					}
+					switch n := st.Current.SendNonce; {
+					case n < 1<<40:
+						w.Dev.VerifSetSendNonce(pk, Reject-uint64(1+rng.Intn(8)))
+						crossings.Add(1)
+					case n >= Reject && shifted[i] != st.Current.RemoteIndex:
+						shifted[i] = st.Current.RemoteIndex
+						w.Dev.VerifShiftHandshakeTimes(pk, 6*time.Second) // once per exhausted key: the next flush initiates
+					}
+				}
+				time.Sleep(30 * time.Microsecond)
+			}
+		}()
+	}
 	// phases
 	t0 := time.Now()
 	phaseDur := time.Duration(c.DurMs) * time.Millisecond / time.Duration(c.Phases)
@@ -817,7 +872,11 @@ func runStress(c StressCfg) Case {
 					continue
 				}
 				var v uint64
-				switch (ph + pi) % 3 {
+				k3 := (ph + pi) % 3
+				if c.Cross {
+					k3 = 2 // the crossing goroutine does it
+				}
+				switch k3 {
 				case 0:
 					v = Reject - uint64(1+rng.Intn(2500))
 					if rng.Intn(2) == 0 {
@@ -840,6 +899,8 @@ func runStress(c StressCfg) Case {
 		collMu.Unlock()
 		ctl.paused.Store(false)
 	}
+	crossStop.Store(true)
+	crossWg.Wait()
 	ctl.stop.Store(true)
 	ctl.paused.Store(false)
 	waitDone := make(chan struct{})
@@ -886,6 +947,7 @@ func runStress(c StressCfg) Case {
 	info["keys_reached_limit"] = reached
 	info["out_of_order_neighbours"] = interleaved
 	info["send_errors_injected"] = sendErrs.Load()
+	info["counter_raised_to_limit"] = crossings.Load()
 	info["transports"] = nTransport
 	info["keys"] = len(keyOrder)
 	info["initiations_answered"] = nInit
@@ -1199,6 +1261,7 @@ func main() {
 	replayIn := flag.String("replay", "", "JSON file with cases to re-run")
 	corpus := flag.String("corpus", "", "directory of corpus JSON cases to run first")
 	scen := flag.String("scen", "", "run this single scenario (JSON {evs,bb}) in-process and print the case as JSON")
+	cross := flag.Int("cross", 2, "number of crossing stress worlds")
 	dupr := flag.Int("dup-rounds", 7, "rounds per duplicate-response family (6 families per run)")
 	world := flag.String("world", "", "run this single stress configuration (JSON) in-process and print the case as JSON")
 	flag.Parse()
@@ -1332,6 +1395,12 @@ func main() {
 			if c.Procs > runtime.NumCPU() {
 				c.Procs = runtime.NumCPU()
 			}
+			stressCases = append(stressCases, isolatedStress(c))
+		}
+		// crossing worlds: one peer, many flushers, every 25..40 ms the counter is put 1..40 below the limit
+		for i := 0; i < *cross; i++ {
+			c := StressCfg{Seed: *seed*1000 + 500 + int64(i), Peers: 1, BindBatch: 8, TunBatch: []int{16, 4, 8}[i%3], Procs: []int{runtime.NumCPU(), 4, 8}[i%3],
+				OneIn: 0, MaxSleep: 20, DurMs: *durMs, Phases: 2, PaceUs: 60, AnsDelay: 0, KA: 3, Cross: true}
 			stressCases = append(stressCases, isolatedStress(c))
 		}
 	}
